@@ -126,3 +126,42 @@ Definition gate_gt_every (b uf : nat) (step : nat) : bool := Nat.ltb b step && N
 Definition gate_ge (ls : nat) (step : nat) : bool := Nat.leb ls step.                            (* step >= learning_starts *)
 Definition gate_both (b ls uf : nat) (step : nat) : bool :=
   Nat.ltb b step && Nat.leb ls step && Nat.eqb (step mod uf) 0.
+
+(* ------------------------------------------------------------------ *)
+(** ** which observation the executed action was computed from (the tabular loops)
+
+    [ActFresh]: the behaviour policy is asked at the top of every iteration about the current
+    observation (q_learning, sarsa, double_q_learning, monte_carlo, dynaq).
+    [ActCarried]: the textbook on-policy form - the action for the next iteration is the
+    [next_action] chosen after the step at the successor observation and carried over the end
+    of the iteration, without a new choice after [env.reset()]. *)
+Inductive act_rule := ActFresh | ActCarried.
+
+Record astate := {
+  a_env : env;
+  a_last : obs;                    (* the observation the environment returned last (step or reset) *)
+  a_pending : obs;                 (* the observation the carried action was computed from *)
+  a_used : list (obs * obs)        (* per executed step: (observation its action was computed from, current observation) *)
+}.
+
+Definition act_init (script : list (nat * endk)) : astate :=
+  let '(e, o) := env_reset (env_init script) in
+  {| a_env := e; a_last := o; a_pending := o; a_used := [] |}.
+
+Definition act_iter (rule : act_rule) (s : astate) : astate :=
+  let src := match rule with ActFresh => a_last s | ActCarried => a_pending s end in
+  let '(e1, (o', _, term, trunc)) := env_step (a_env s) in
+  let used := a_used s ++ [(src, a_last s)] in
+  if term || trunc then
+    let '(e2, o0) := env_reset e1 in
+    {| a_env := e2; a_last := o0; a_pending := o'; a_used := used |}
+  else
+    {| a_env := e1; a_last := o'; a_pending := o'; a_used := used |}.
+
+Fixpoint act_run (rule : act_rule) (n : nat) (s : astate) : astate :=
+  match n with O => s | S k => act_run rule k (act_iter rule s) end.
+
+Definition obs_eqb (a b : obs) : bool := Nat.eqb (fst a) (fst b) && Nat.eqb (snd a) (snd b).
+(** per executed step: was the action computed from the current observation? *)
+Definition act_flags (rule : act_rule) (script : list (nat * endk)) (n : nat) : list bool :=
+  map (fun p => obs_eqb (fst p) (snd p)) (a_used (act_run rule n (act_init script))).
